@@ -75,6 +75,10 @@ func Run(env *core.Env, p *load.Program, prop string, sel json.RawMessage) (*cor
 			sw.reads(a)
 		case "configwrites":
 			sw.configWrites(a)
+		case "writeset":
+			sw.writeset(a)
+		case "guardedcall":
+			sw.guardedcall(a)
 		default:
 			return nil, fmt.Errorf("unknown sweep analysis %q", a.Kind)
 		}
